@@ -83,7 +83,9 @@ class Trace:
         entries = []
         for nm in tr.finals:
             val, clc = tr.finals[nm]
-            entries.append((tr.gen.var_site.get((nm, ()), 10 ** 9 + order.get(nm, 0)), nm, nm[1], val, clc,
+            # typed boolean = what the library handed back is a LinCombBool, whatever the plan expected
+            t = "B" if nm in getattr(tr, "final_is_bool", ()) else nm[1]
+            entries.append((tr.gen.var_site.get((nm, ()), 10 ** 9 + order.get(nm, 0)), nm, t, val, clc,
                             tr.gen.origin.get(nm, {})))
         for (nm, rstack), (val, clc) in getattr(tr, "region_vars", {}).items():
             if any(tr.region_dead.get(r) for r in rstack):
